@@ -78,6 +78,8 @@ pub struct Host {
     /// virtual control-flow events of the ORIGINAL program (recorded only when requested):
     /// (number of trace events recorded before it, kind, local function position, instruction index)
     pub virt: Option<Vec<(usize, u8, u32, u32)>>,
+    /// (local function position, instruction index) pairs for which V_EXEC / V_DONE are recorded
+    pub watch: Vec<(u32, u32)>,
 }
 
 /// control entered the body opened at this instruction (block / loop incl. every re-entry / then-arm at
@@ -88,6 +90,11 @@ pub const V_FALL: u8 = 1;
 /// control reached the instruction after the construct closed by this `end` (fall-through, a branch
 /// to its label, a caught exception landing there, or an else-less `if` whose condition was false)
 pub const V_AFTER: u8 = 2;
+/// a watched instruction is about to execute
+pub const V_EXEC: u8 = 3;
+/// a watched instruction has completed and control goes on to the next instruction (it did not branch
+/// away, trap, throw or return)
+pub const V_DONE: u8 = 4;
 
 pub struct Instance<'a> {
     pub m: &'a ModuleSpec,
@@ -223,6 +230,7 @@ impl<'a> Instance<'a> {
                 trap_at,
                 host_calls: 0,
                 virt: None,
+                watch: vec![],
             },
         })
     }
@@ -365,6 +373,10 @@ impl<'a> Instance<'a> {
                 break;
             }
             let ins = &body[pc];
+            let watched = !self.host.watch.is_empty() && self.host.watch.contains(&(li as u32, pc as u32));
+            if watched {
+                self.virt(V_EXEC, li, pc);
+            }
             // branch helper: returns new pc or signals function return
             let mut branch_to: Option<u32> = None;
             match ins {
@@ -801,6 +813,9 @@ impl<'a> Instance<'a> {
                 }
                 continue;
             }
+            if watched {
+                self.virt(V_DONE, li, pc);
+            }
             pc += 1;
         }
         if stack.len() < results.len() {
@@ -826,9 +841,15 @@ pub fn run_export(m: &ModuleSpec, export: &str, args: Vec<Val>, tape: Vec<i32>, 
 
 /// `virt` = also record the virtual control-flow events (`V_*`) of the executed program
 pub fn run_export_virt(m: &ModuleSpec, export: &str, args: Vec<Val>, tape: Vec<i32>, trap_at: Option<usize>, cap: u64, virt: bool) -> Result<RunOut, String> {
+    run_export_watch(m, export, args, tape, trap_at, cap, virt, vec![])
+}
+
+#[allow(clippy::too_many_arguments)]
+pub fn run_export_watch(m: &ModuleSpec, export: &str, args: Vec<Val>, tape: Vec<i32>, trap_at: Option<usize>, cap: u64, virt: bool, watch: Vec<(u32, u32)>) -> Result<RunOut, String> {
     let mut inst = Instance::new(m, tape, trap_at, cap)?;
     if virt {
         inst.host.virt = Some(vec![]);
+        inst.host.watch = watch;
     }
     let f = m
         .exports
